@@ -291,6 +291,7 @@ class ObjGen(History):
         i = self.op(f"copy @{k} @{oi} " + " ".join(t))
         self.minted += 1
         self.objs2.append((i, c, tok, True, True))      # belief only
+        if getattr(self, "always_label", False): self.objects.append((i, tok, True, True, lab, k))
         return i
 
 
@@ -670,7 +671,8 @@ class PersistGen(ObjGen):
         labels = {o[0]: o[4] for o in self.objects}
         new2, newo = [], []
         for o2 in self.objs2:
-            if o2[2] is not t or o2[0] not in labels: new2.append(o2); continue
+            if o2[2] is not t: new2.append(o2); continue
+            if o2[0] not in labels: continue          # no label known (a copy): its handle is stale after the restart, forget it
             lab = labels[o2[0]]
             self.op(f"findinit @{k} 3={hx(lab)}"); f = self.op(f"find @{k} 1"); self.op(f"findfinal @{k}")
             self.minted += 1
@@ -779,5 +781,138 @@ def fixture_use_ops(labels, toks, tables):
             for grp in ([0x0, 0x1, 0x2, 0x3, 0x100, 0x80], [0x11, 0x102, 0x10, 0x12, 0x101], [0x103, 0x162, 0x104, 0x105, 0x108, 0x10a, 0x163, 0x164, 0x165, 0x166],
                         [0x120, 0x122, 0x180, 0x181, 0x130, 0x131, 0x132], [0x110, 0x111, 0x161, 0x90, 0x40000600]):
                 h.op(f"getattr @{f} @{f}" if False else f"getattr @{k} @{f} " + " ".join(f"{a:x}:400000" for a in grp))
+    h.op("dumpdir"); h.op("fini")
+    return h.text()
+
+
+# ---------------------------------------------------------------------------------------------------------
+# C04 / C14: PIN and token-initialisation histories with adversarial PINs
+# ---------------------------------------------------------------------------------------------------------
+def hxb(b): return b.hex() if b else "."
+
+
+def new_pin(rng, valid=None):
+    valid = rng.random() < 0.8 if valid is None else valid
+    n = rng.choice([4, 4, 5, 8, 16, 31, 64, 254, 255]) if valid else rng.choice([0, 1, 3, 256, 300])
+    kind = rng.random()
+    if kind < 0.4: return bytes(rng.choice(b"abcdefghijklmnopqrstuvwxyz0123456789") for _ in range(n))
+    if kind < 0.6: return bytes(rng.randrange(256) for _ in range(n))                     # arbitrary bytes, NUL and non-ASCII included
+    if kind < 0.8 and n >= 4: return b"ab\x00" + bytes(rng.randrange(1, 256) for _ in range(n - 3))   # embedded NUL
+    return ("üñî" * n).encode()[:n]
+
+
+def adversarial(rng, pin, other, prev):
+    """a PIN that must NOT work although it is close to one that does"""
+    c = rng.randrange(11)
+    if c == 0 and len(pin) > 0: return pin[:-1]
+    if c == 1: return pin + b"\x00"
+    if c == 2: return pin + bytes([rng.randrange(256)])
+    if c == 3 and pin:
+        i = rng.randrange(len(pin)); return pin[:i] + bytes([pin[i] ^ (1 << rng.randrange(8))]) + pin[i + 1:]
+    if c == 4 and other: return other
+    if c == 5 and prev: return prev
+    if c == 6: return b""
+    if c == 7: return pin[:2] + b"\x00" + pin[2:]
+    if c == 8: return pin.swapcase()
+    if c == 9: return (pin + bytes(256))[:256]
+    return pin[1:] if len(pin) > 1 else b"zzzz"
+
+
+def pin_history(seed, nops=60, ntok=2, observe=False, grow=False):
+    rng = random.Random(seed)
+    h = History(rng)
+    h.op("init"); h.op("slots")
+    T = []
+    class PT: pass
+    for i in range(ntok):
+        t = PT(); t.label = f"tok{chr(65 + i)}"; t.so = new_pin(rng, True); t.user = None; t.prev_so = None; t.prev_user = None; t.login = None; t.objs = []
+        h.op(f"inittoken free {hxb(t.so)} {hx(t.label)}"); h.op("slots"); T.append(t)
+    sessions = []          # (k, t, rw)
+    def open_(t, rw):
+        k = h.op(f"open t:{hx(t.label)} {6 if rw else 4}"); sessions.append((k, t, rw)); return k
+    def ensure_sessions():
+        for t in T:
+            if not any(s[1] is t for s in sessions): open_(t, True)
+    def restart():
+        kind = rng.choice(["reinit", "exit", "clean"])
+        h.op("dumpdir")
+        if kind in ("reinit", "clean"): h.op("fini")
+        if kind in ("exit", "clean"): h.op("reexec")
+        h.op("init"); h.op("slots")
+        sessions.clear()
+        for t in T: t.login = None
+    def check_objects(k, t):
+        for lab in t.objs[-3:]:
+            h.op(f"findinit @{k} 3={hx(lab)}"); f = h.op(f"find @{k} 1"); h.op(f"findfinal @{k}")
+            h.op(f"getattr @{k} @{f} 11:64 3:64 2:1")
+    def observe_all():
+        """C14: after a call on one token, look at every token: slot list (labels, serials, flags), session states, visible objects"""
+        h.op("slots")
+        for t2 in T:
+            ks = [s for s in sessions if s[1] is t2]
+            if ks:
+                k2 = ks[0][0]
+                h.op(f"sinfo @{k2}"); h.op(f"findinit @{k2}"); h.op(f"find @{k2} 100"); h.op(f"findfinal @{k2}")
+    ensure_sessions()
+    for n in range(nops):
+        ensure_sessions()
+        if observe: observe_all()
+        k, t, rw = rng.choice(sessions)
+        r = rng.random()
+        if grow and len(T) < 5 and rng.random() < 0.06:
+            t = PT(); t.label = f"tok{chr(65 + len(T))}"; t.so = new_pin(rng, True); t.user = None; t.prev_so = None; t.prev_user = None; t.login = None; t.objs = []
+            h.op(f"inittoken free {hxb(t.so)} {hx(t.label)}"); h.op("slots"); T.append(t)
+            continue
+        if r < 0.22:        # login
+            who = rng.choice(["so", "user", "user"])
+            cur = t.so if who == "so" else t.user
+            if cur is not None and rng.random() < 0.55: pin = cur
+            else: pin = adversarial(rng, cur or b"none", t.user if who == "so" else t.so, t.prev_so if who == "so" else t.prev_user)
+            h.op(f"login @{k} {0 if who == 'so' else 1} {hxb(pin)}")
+            if pin == cur and t.login is None and not (who == "so" and any(s[1] is t and not s[2] for s in sessions)): t.login = who
+            if t.login == "user" and rng.random() < 0.5: check_objects(k, t)
+        elif r < 0.30:
+            h.op(f"logout @{k}"); t.login = None
+        elif r < 0.42:      # C_InitPIN (succeeds only in an SO session)
+            if t.login != "so" and rng.random() < 0.6:
+                h.op(f"logout @{k}"); h.op(f"login @{k} 0 {hxb(t.so)}")
+                t.login = "so" if not any(s[1] is t and not s[2] for s in sessions) else None
+            p = new_pin(rng)
+            h.op(f"initpin @{k} {hxb(p)}")
+            if t.login == "so" and 4 <= len(p) <= 255: t.prev_user, t.user = t.user, p
+        elif r < 0.60:      # C_SetPIN
+            which = "so" if t.login == "so" else "user"
+            cur = t.so if which == "so" else t.user
+            ok_old = cur is not None and rng.random() < 0.6
+            old = cur if ok_old else adversarial(rng, cur or b"none", t.user if which == "so" else t.so, t.prev_so if which == "so" else t.prev_user)
+            p = new_pin(rng)
+            h.op(f"setpin @{k} {hxb(old)} {hxb(p)}")
+            if ok_old and rw and 4 <= len(p) <= 255:
+                if which == "so": t.prev_so, t.so = t.so, p
+                else: t.prev_user, t.user = t.user, p
+        elif r < 0.70:      # a private token object, read back after later PIN changes
+            if t.login != "user" and t.user is not None:
+                h.op(f"logout @{k}"); h.op(f"login @{k} 1 {hxb(t.user)}"); t.login = "user"
+            lab = h.new_label()
+            h.op(f"create @{k} 0={ul(0)} 1=01 2=01 3={hx(lab)} 11={bytes(rng.randrange(256) for _ in range(rng.choice([1, 16, 40]))).hex()}")
+            if t.login == "user" and rw: t.objs.append(lab)
+        elif r < 0.76:      # C_InitToken on an initialised token
+            if rng.random() < 0.6:
+                h.op(f"closeall t:{hx(t.label)}")
+                for s in [s for s in sessions if s[1] is t]: sessions.remove(s)
+                t.login = None
+            right = rng.random() < 0.6
+            pin = t.so if right else adversarial(rng, t.so, t.user, t.prev_so)
+            h.op(f"inittoken t:{hx(t.label)} {hxb(pin)} {hx(t.label)}"); h.op("slots")
+            if right and not any(s[1] is t for s in sessions): t.prev_user, t.user, t.objs = t.user, None, []
+        elif r < 0.84:
+            open_(t, rng.random() < 0.6)
+        elif r < 0.88:
+            h.op(f"close @{k}"); sessions.remove((k, t, rw))
+            if not any(s[1] is t for s in sessions): t.login = None
+        elif r < 0.94:
+            restart()
+        else:
+            h.op("dumpdir")
     h.op("dumpdir"); h.op("fini")
     return h.text()
